@@ -104,6 +104,18 @@ class LockTable:
         self.name = name
 
 
+class VolatileIntMap:
+    """In-memory integer-valued map attribute of a service object (e.g. collections.defaultdict(int)).  It is NOT part of the
+    datastore view: a restarted server starts with its __init__ value while the datastore persists, and a long-running one
+    holds whatever it accumulated -- so at the entry of an RPC nothing relates it to the datastore.  Model: reading a key
+    yields an unconstrained non-negative integer (the same term for the same key on a path), writing updates it.  A
+    counter-model that depends on it is only reported when it replays natively (service_replay 'RestartServer')."""
+
+    def __init__(self, name):
+        self.name = name
+        self.vals = []          # [(key value, z3 Int)]
+
+
 class LockRef:
     def __init__(self, table, key):
         self.table, self.key = table, key
@@ -1227,9 +1239,30 @@ def sym_index(it, lst, idx):
     return pos
 
 
+def _vol_find(it, base, idx):
+    from . import engine as _E
+    for k, v in base.vals:
+        try:
+            c = _E.eq_values(k, idx)
+        except Unsupported:
+            continue
+        if c is True or (z3.is_expr(c) and it.truth(c)):
+            return k
+    return None
+
+
 def subscript(it, base, idx):
     if isinstance(base, LockTable):
         return LockRef(base, idx)
+    if isinstance(base, VolatileIntMap):
+        k = _vol_find(it, base, idx)
+        if k is not None:
+            return [v for kk, v in base.vals if kk is k][0]
+        t = it.run.fresh('volatile_' + base.name, z3.IntSort())
+        it.run.assume(t >= 0)
+        it.run.volatile_reads = getattr(it.run, 'volatile_reads', []) + [(base.name, t)]
+        base.vals.append((idx, t))
+        return t
     if isinstance(base, SymList):
         if isinstance(idx, slice):
             if idx.step is not None:
@@ -1328,6 +1361,14 @@ def subscript_hook(it, base, idx):
 
 
 def setitem(it, base, idx, v):
+    if isinstance(base, VolatileIntMap):
+        k = _vol_find(it, base, idx)
+        vz = v if z3.is_expr(v) else z3.IntVal(v)
+        if k is not None:
+            base.vals = [(kk, (vz if kk is k else vv)) for kk, vv in base.vals]
+        else:
+            base.vals.append((idx, vz))
+        return
     if isinstance(base, list):
         if isinstance(idx, slice):
             if idx.start is None and idx.stop is None and idx.step is None:
@@ -1846,7 +1887,7 @@ def truth_hook(it, v):
         return len(v) > 0
     if isinstance(v, DictView):
         return len(v.items) > 0
-    if isinstance(v, (LockTable, LockRef, LockObj, Opaque, GenObj, PyIter)):
+    if isinstance(v, (LockTable, LockRef, LockObj, Opaque, GenObj, PyIter, VolatileIntMap)):
         return True
     if isinstance(v, OpaqueObj):
         raise Unsupported('truth value of an opaque python object')
